@@ -319,6 +319,17 @@ size_t make_segmentation(size_t n, size_t start, size_t end, size_t epsilon, Fin
     }
     if (end >= start + 2 && in(end - 1) != in(end - 2))
         add_point(in(end - 1), end - 1);
+    else if (end >= start + 2 && end < n) {
+        // A run of duplicate keys ends exactly at the end of this chunk: same adjustment as in the loop above
+        if constexpr (std::is_floating_point_v<K>) {
+            K next;
+            if ((next = std::nextafter(in(end - 1), std::numeric_limits<K>::infinity())) < in(end))
+                add_point(next, end - 1);
+        } else {
+            if (in(end - 1) + 1 < in(end))
+                add_point(in(end - 1) + 1, end - 1);
+        }
+    }
 
     if (end == n) {
         // Ensure values greater than the last one are mapped to n
@@ -366,6 +377,9 @@ size_t make_segmentation_par(size_t n, size_t epsilon, Fin in, Fout out) {
     for (auto i = 0; i < parallelism; ++i) {
         auto first = i * chunk_size;
         auto last = i == parallelism - 1 ? n : first + chunk_size;
+        for (; 0 < last && last < n; ++last) // keep a run of duplicate keys that crosses the end of the chunk inside this chunk
+            if (in(last) != in(last - 1))
+                break;
         if (first > 0) {
             for (; first < last; ++first)
                 if (in(first) != in(first - 1))
